@@ -15,7 +15,8 @@ META = {
             "position, every stored-block size, every row geometry Columns x Colors x BPC{8,16}, every assignment of the "
             "five PNG filter types to rows, LZW with EarlyChange 0|1 across all code-width boundaries and a full table, "
             "chains of up to three filters with parameters as dictionary or parallel array) and that the model of "
-            "lopdf's decoder refines them once the confirmed deviations are switched off. Every generated case is then "
+            "lopdf's decoder (as the code is since the four C09 fix: commits: all deviation switches off) refines them; "
+            "each repaired defect switched back on in the model must break the contract exactly on its class. Every generated case is then "
             "decoded by the real lopdf (decompressed_content, get_plain_content, decompress, png::decode_row) and "
             "compared with the plain bytes the specification started from. Random set_content / set_plain_content / "
             "compress / decompress / Document::compress / Document::decompress sequences are run on lopdf and every "
@@ -70,7 +71,8 @@ def judge_chain(c, r):
     if dc["ok"] and dc["data"] == want:
         return None, det
     cls = c["cls"]
-    # a listed class counts only when lopdf misbehaves *exactly* as that deviation predicts
+    # classes of the repaired defects (none is a known finding any more): a regression is named by its
+    # class only when lopdf misbehaves *exactly* as that deviation predicts
     if "decodeparms.array" in cls and same(dc, r["np"]):
         return "C09:decodeparms.array", det
     if "png.avg" in cls and dc["ok"] and c["implAvg"]["ok"] and dc["data"] == c["implAvg"]["data"]:
@@ -88,7 +90,7 @@ def judge_row(c, r):
         return "C09:panic.row", det
     if r["row"] == c["want"]:
         return None, det
-    if c["ft"] == 3 and r["row"] == c["impl"]:
+    if c["ft"] == 3 and r["row"] == c["avgdev"]:      # exactly the repaired defect (left + above/2)
         return "C09:png.avg", det
     return "C09:png.row.ft%d" % c["ft"], det
 
@@ -216,14 +218,18 @@ def streamops_model(chk, tier):
     wit = set(r.tagged("WITNESS"))
     if wit != {"compressed", "roundtrip"}:
         raise vlib.ToolError("vacuous StreamOps model: witnesses %s" % sorted(wit))
-    # "as the code is": each confirmed deviation breaks the contract in the model, and only on its own class
+    # the run above is the design "as the code is" (all switches off since the fix: commits; StepOK holds, so no
+    # DEVIATION line can appear).  Negative control of the contract invariants: each repaired defect seeded
+    # back into the model breaks the contract, and only on its own class
+    if r.tagged("DEVIATION"):
+        raise vlib.ToolError("StreamOps model as the code is reports a deviation")
     for cfg, cls in (("devAvg", "png.avg"), ("devArr", "decodeparms.array"), ("devStale", "compress.stale-decodeparms")):
         d = tlc("MC_StreamOps.tla", "MC_StreamOps_%s.cfg" % cfg, workers=2, timeout=600)
         chk.add_tlc(d)
         seen = {tuple(x) for x in d.tagged("DEVIATION")}
         if seen != {(cls,)}:
             raise vlib.ToolError("deviation switch %s: model shows %s, expected exactly {%s}" % (cfg, sorted(seen), cls))
-    chk.extra["design_level_deviations_reproduced"] = 3
+    chk.extra["seeded_design_deviations_detected"] = 3
 
 
 def add_oracle(recs):
